@@ -47,11 +47,16 @@ func drawRootCfg(tp *kernel.Tape) rootCfg {
 	default:
 		c.L = tp.DurLog(time.Nanosecond, 10*365*24*time.Hour)
 	}
-	if tp.Draw(3) != 0 {
-		c.nb = -tp.DurLog(time.Nanosecond, c.L/4+1)
+	// skews up to a quarter of the lifetime, or (one run in four) far larger than it ("skew only" set-ups)
+	sk := c.L/4 + 1
+	if tp.Draw(4) == 0 {
+		sk = 8*c.L + 1
 	}
 	if tp.Draw(3) != 0 {
-		c.na = tp.DurLog(time.Nanosecond, c.L/4+1)
+		c.nb = -tp.DurLog(time.Nanosecond, sk)
+	}
+	if tp.Draw(3) != 0 {
+		c.na = tp.DurLog(time.Nanosecond, sk)
 	}
 	if c.L+c.na < 2 {
 		c.na += 2 // below 2ns "half the remaining life" is 0 and the shift clause is vacuous (excluded from generation)
